@@ -558,11 +558,13 @@ Section Parametric13_3.
     { induction ps as [|p ps IH]; intro acc; [apply txr_obj_refl|]. cbn [fold_left].
       eapply txr_obj_trans; [|apply IH]. unfold rewrite_templates.
       destruct (parse_path _) as [steps|]; [|apply txr_obj_refl].
-      pose proof (visit_txr tx steps (fst acc) (JObj (snd acc))) as Hv.
-      destruct (visit tx steps (fst acc) (JObj (snd acc))) as [loc' j]. cbn [snd] in *.
-      destruct j; try contradiction. now apply txr_obj_unfold. }
+      match goal with |- context [visit tx steps ?l0 ?j0] =>
+        pose proof (visit_txr tx steps l0 j0) as Hv; destruct (visit tx steps l0 j0) as [loc' j] end.
+      cbn [snd] in *. destruct j; try contradiction. cbn [snd]. now apply txr_obj_unfold. }
     specialize (H (catalog_paths tab (type_of o)) (snd st, o)).
-    destruct (fold_left _ (catalog_paths tab (type_of o)) (snd st, o)) as [loc' o']. exact H.
+    match goal with |- context [fold_left ?g ?l ?a] =>
+      change (txr_obj tx o (snd (fold_left g l a))) in H; destruct (fold_left g l a) as [loc' o'] end.
+    exact H.
   Qed.
 
   Lemma node_13_3_txr : forall st n, txr_obj tx n (snd (node_13_3 tx st n)).
